@@ -122,6 +122,29 @@ pub fn sdd_from_tt<'a, B: SddBuilder<'a>>(b: &'a B, t: Tt, n: usize) -> SddPtr<'
     go(b, t, 0, n)
 }
 
+/// as `sdd_from_tt`, oracle variable v standing for builder label `labels[v]`
+pub fn sdd_from_tt_labels<'a, B: SddBuilder<'a>>(b: &'a B, t: Tt, labels: &[usize]) -> SddPtr<'a> {
+    fn go<'a, B: SddBuilder<'a>>(b: &'a B, t: Tt, v: usize, labels: &[usize]) -> SddPtr<'a> {
+        if t.is_true() {
+            return b.true_ptr();
+        }
+        if t.is_false() {
+            return b.false_ptr();
+        }
+        assert!(v < labels.len(), "truth table depends on a variable outside the embedding");
+        if !t.depends(v) {
+            return go(b, t, v + 1, labels);
+        }
+        let lo = go(b, t.cofactor(v, false), v + 1, labels);
+        let hi = go(b, t.cofactor(v, true), v + 1, labels);
+        let x = b.var(VarLabel::new_usize(labels[v]), true);
+        let a = b.and(x, hi);
+        let c = b.and(b.negate(x), lo);
+        b.or(a, c)
+    }
+    go(b, t, 0, labels)
+}
+
 /// a second construction route for the same function: the disjunction of its minterms over its support, each
 /// minterm a conjunction of literals taken in the given variable order (different intermediate diagrams, and on
 /// a builder without compression a different final structure)
